@@ -579,8 +579,17 @@ func nativeReplayOnce(h *HarnessSpec, hdir, cexPath, outDir, yieldScale string) 
 	os.WriteFile(ovFile, ovJSON, 0o644)
 	ctx, cancel := context.WithTimeout(context.Background(), 300*time.Second)
 	defer cancel()
-	cmd := exec.CommandContext(ctx, "go", "test", "-v", "-vet=off", "-count=1", "-run", "^TestVerifReplay$", "-overlay", ovFile, "-timeout", "120s", ".")
-	cmd.Dir = h.PkgDir()
+	targets := []string{"."}
+	runDir := h.PkgDir()
+	if h.AdHoc() {
+		// ad-hoc package: explicit file list (sources, overlay files, the replay test) from the repository root
+		runDir = RepoRoot
+		if targets, err = h.AdHocFiles(ov); err != nil {
+			return err.Error(), "error"
+		}
+	}
+	cmd := exec.CommandContext(ctx, "go", append([]string{"test", "-v", "-vet=off", "-count=1", "-run", "^TestVerifReplay$", "-overlay", ovFile, "-timeout", "120s"}, targets...)...)
+	cmd.Dir = runDir
 	abs, _ := filepath.Abs(cexPath)
 	cmd.Env = append(GoEnv(filepath.Join(tmp, "gomod")), "VERIF_MODEL="+abs, "VERIF_YIELD_SCALE="+yieldScale)
 	outB, _ := cmd.CombinedOutput()
